@@ -453,7 +453,8 @@ func (E *Engine) addOblig(x *Exec, st *State, kind, label string, goal *Term, sr
 		hyps = append(hyps, x.useHints(st)...)
 	}
 	q := &Query{Hyps: hyps, Goal: goal, Path: strings.Join(st.trace, ",")}
-	q.Model = x.modelTerms(st)
+	q.Model, q.Names = x.modelTerms(st)
+	o.X = x
 	if x.fc != nil && len(x.fc.Insts) > 0 && x.topFrame != nil {
 		q.Hints = x.instHints(st, goal)
 	}
@@ -544,25 +545,42 @@ func isLemmaUse(E *Engine, e *SExpr) bool {
 }
 
 // modelTerms: what to ask the solver for when a query is sat.
-func (x *Exec) modelTerms(st *State) []*Term {
-	var out []*Term
-	if x.topFrame == nil {
-		return nil
+func (x *Exec) modelTerms(st *State) ([]*Term, []string) {
+	if x.topFrame == nil || x.topFrame.entry == nil {
+		return nil, nil
 	}
-	names := make([]string, 0, len(x.topFrame.params))
-	for n := range x.topFrame.params {
-		names = append(names, n)
+	if x.mterms != nil && x.mtermsFor == x.topFrame {
+		return x.mterms, x.mnames
 	}
-	sort.Strings(names)
-	for _, n := range names {
-		v := x.topFrame.params[n]
-		for _, l := range v.L {
-			if l.S.K != SArr {
-				out = append(out, l)
-			}
+	var nts []namedTerm
+	entry := x.topFrame.entry.clone()
+	for _, p := range x.fn.Params {
+		v, ok := x.topFrame.params[p.Name()]
+		if !ok {
+			continue
 		}
+		var part []namedTerm
+		func() {
+			defer func() { recover() }()
+			if x.reifyTerms(entry, p.Name(), v, &part, 0) {
+				nts = append(nts, part...)
+			} else {
+				for i, l := range v.L {
+					if l.S.K != SArr {
+						nts = append(nts, namedTerm{fmt.Sprintf("%s#%d", p.Name(), i), l})
+					}
+				}
+			}
+		}()
 	}
-	return out
+	var ts []*Term
+	var ns []string
+	for _, nt := range nts {
+		ts = append(ts, nt.T)
+		ns = append(ns, nt.Name)
+	}
+	x.mterms, x.mnames, x.mtermsFor = ts, ns, x.topFrame
+	return ts, ns
 }
 
 // ---------------------------------------------------------------- verifying a function
@@ -759,6 +777,13 @@ func (E *Engine) addPost(x *Exec, st *State, env *Env, c Clause) {
 	g := x.evalBool(env, c.E)
 	label := labelOr(c, fmt.Sprintf("ensures@%d", c.Line))
 	x.obligeNamed(st, "post", label, g, c.Src, fmt.Sprintf("%s:%d", c.File, c.Line))
+	name := fmt.Sprintf("%s.%s#%s:%s", shortPkg(fnPkgPath(x.fn)), relName(x.fn), "post", label)
+	if x.caseName != "" {
+		name += "|case=" + x.caseName
+	}
+	if o, ok := E.obligs[name]; ok {
+		o.Expr = c.E
+	}
 }
 
 func (x *Exec) obligeNamed(st *State, kind, label string, g *Term, src, where string) {
